@@ -175,6 +175,50 @@ Definition group_copy_from_extent {A} (copies : list (option A)) : option (list 
 Definition child_copy (o : obj) (e : extent) (inv : bool) : option obj :=
   match copy_from_extent o e inv with CCopy c => Some c | _ => None end.
 
+(* the same with failures: a child whose own copy_from_extent raises makes the group's copy_from_extent raise; the group
+   copy made so far is removed again ([cleanup], the repaired code) or stays behind in the workspace ([stray]) *)
+Definition child_copy_res (o : obj) (e : extent) (inv : bool) : res (option obj) :=
+  match copy_from_extent o e inv with CCopy c => Ok (Some c) | CNone => Ok None | CErr er => Err er end.
+
+Inductive group_result (A : Type) := GNone | GCopy (l : list A) | GFail (e : err) (stray : bool).
+Arguments GNone {A}.
+Arguments GCopy {A} l.
+Arguments GFail {A} e stray.
+
+Fixpoint first_err {A} (cs : list (res A)) : option err :=
+  match cs with [] => None | Err e :: _ => Some e | Ok _ :: r => first_err r end.
+Definition ok_part {A} (c : res (option A)) : option A := match c with Ok x => x | Err _ => None end.
+
+Definition group_copy_run {A} (cleanup : bool) (cs : list (res (option A))) : group_result A :=
+  match first_err cs with
+  | Some e => GFail e (negb cleanup)
+  | None => match group_copy_from_extent (map ok_part cs) with None => GNone | Some l => GCopy l end
+  end.
+
+(* a sub-group seen as a child of its parent group *)
+Definition group_as_child {A} (r : group_result A) : res (option unit) :=
+  match r with GNone => Ok None | GCopy _ => Ok (Some tt) | GFail e _ => Err e end.
+Definition res_unit {A} (c : res (option A)) : res (option unit) :=
+  match c with Ok (Some _) => Ok (Some tt) | Ok None => Ok None | Err e => Err e end.
+
+(* Drillhole.copy_from_extent.  Pinned: EntityContainer.copy_from_extent hands the one-entry collar mask to Points.copy,
+   which refuses it unless the hole has exactly one vertex, and ignores it (copies the hole) when the hole has no vertices,
+   even if the entry is False.  Repaired ([fixed]): the hole is copied as a whole iff its collar is selected.
+   [nverts] = None for a hole without depth data *)
+Definition drillhole_copy_from_extent (fixed : bool) (collar : pt) (nverts : option nat) (e : extent) (inv : bool) : res (option bool) :=
+  match drillhole_mask collar e inv with
+  | Err er => Err er
+  | Ok None => Ok None
+  | Ok (Some m) =>
+      let sel := match m with [b] => b | _ => false end in
+      if fixed then (if sel then Ok (Some true) else Ok None)
+      else match nverts with
+           | None => Ok (Some true)                               (* no vertices: the mask is ignored *)
+           | Some n => if Nat.eqb n 1 then Ok (Some sel)           (* one vertex: kept or dropped by the mask *)
+                       else Err ValueError                        (* "Mask must be an array of shape (n_vertices,)" *)
+           end
+  end.
+
 (* Data.mask_by_extent for a child of a Points/Curve/Surface (no centroids): no bounding-box test, no orphan logic *)
 Definition data_mask (o : obj) (a : assoc) (e : extent) (inv : bool) : res (option (list bool)) :=
   match a with
@@ -268,6 +312,9 @@ Definition as_unit {A} (c : option A) : option unit := match c with Some _ => So
 Fixpoint kept_from (i : nat) (l : list (option unit)) : list nat :=
   match l with [] => [] | Some _ :: r => i :: kept_from (S i) r | None :: r => kept_from (S i) r end.
 (* observed: None, or the indices (in the source's child order) of the children found in the copy, in the copy's order *)
+Definition group_fail_agrees (cleanup : bool) (cs : list (res (option unit))) (e : err) (stray : bool) : bool :=
+  match group_copy_run cleanup cs with GFail e' s => err_eqb e' e && Bool.eqb s stray | _ => false end.
+
 Definition group_agrees (copies : list (option unit)) (obs : option (list nat)) : bool :=
   match group_copy_from_extent copies, obs with
   | None, None => true
